@@ -190,6 +190,18 @@ CHECKS = {
             "The library's process-wide namespace state is reset to its fresh-process value at the start of every case "
             "so that a case is a pure function of its own history.",
             "DESIGN.md 3/C16"),
+    "C17": ("fault_enumeration",
+            "fault enumeration: every single-point corruption operator at every applicable site of Hypothesis-generated "
+            "documents, plus byte-level mutation of renderings, against object-graph invariants / 'load must raise'",
+            "Uncorrupted documents must load into a graph where every entry, nested reference, type reference and "
+            "inheritor list denotes the one object registered under that name; each of 20 corruption operators "
+            "(dangling structural references, duplicated definitions unchanged or changed, deleted definitions, base / "
+            "nesting / mixed / self cycles) applied at every site (quick: every 6th site per operator) must make "
+            "from_xtce raise; byte-mutated renderings must either raise or load consistently. Complete over operator x "
+            "site for each generated document in the thorough tier, sampled over documents.",
+            "References made from criteria and length specifications are not part of the claim; RecursionError counts "
+            "as a rejection.",
+            "DESIGN.md 3/C17"),
 }
 
 PENDING_REASON = "check not built yet in this round (planned, see DESIGN.md section 3); nothing is claimed for it"
